@@ -295,6 +295,11 @@ class Interp:
             if call is None:
                 raise PyExc(TypeError, ("'%s' object is not callable" % f.cls.__name__,))
             return self.call(self.bind(call[0], f, call[1]), args, kwargs)
+        if type(f).__name__ == "_lru_cache_wrapper":
+            return self.call_lru(f, list(args), kwargs)
+        if isinstance(f, types.BuiltinMethodType) and getattr(f, "__name__", "") == "cache_clear" and type(getattr(f, "__self__", None)).__name__ == "_lru_cache_wrapper":
+            self.ctx.options.setdefault("__lru__", {})[id(f.__self__)] = []
+            return None
         if f is object.__new__:
             if args and isinstance(args[0], type) and is_repo_class(args[0]):
                 return SObj(args[0])
@@ -313,6 +318,32 @@ class Interp:
         if callable(f):
             return self.call_native(f, args, kwargs)
         raise PyExc(TypeError, ("'%s' object is not callable" % type(f).__name__,))
+
+    def call_lru(self, f, args, kwargs):
+        """functools.lru_cache / cache wrapper: a memo table per wrapper and per explored path (a fresh process); a call hits an
+        entry when its arguments compare equal to the entry's (for symbolic arguments that is a branch), otherwise the wrapped
+        function runs and the result is stored.  Eviction (maxsize) is not modelled: entries are never dropped."""
+        memo = self.ctx.options.setdefault("__lru__", {}).setdefault(id(f), [])
+        self.ctx.used_models.add("functools.lru_cache: memo table keyed by argument equality, no eviction")
+        kw = tuple(sorted(kwargs.items()))
+        for (a0, k0, result) in memo:
+            if len(a0) != len(args) or [k for k, _ in k0] != [k for k, _ in kw]:
+                continue
+            hit = True
+            for x, y in list(zip(a0, args)) + [(v0, v1) for (_, v0), (_, v1) in zip(k0, kw)]:
+                if x is y or (type(x) is Sym and type(y) is Sym and x.ty is y.ty and x.t.eq(y.t)):
+                    continue  # the very same value: a hit without a case split
+                c = self.compare(ast.Eq, x, y)
+                if type(c) is Sym:
+                    c = self.ctx.branch(c.t)
+                if not c:
+                    hit = False
+                    break
+            if hit:
+                return result
+        result = self.call(f.__wrapped__, args, kwargs)
+        memo.append((tuple(args), kw, result))
+        return result
 
     def call_native(self, f, args, kwargs):
         """Run a native (builtin / library) callable.  Allowed when it is a method of a native
